@@ -2255,6 +2255,16 @@ def validate_meta(
     return meta
 
 
+def data_file_is_current(meta: CacheMeta, manager: BuildManager) -> bool:
+    """Is the data file in the cache the one this meta was written for?"""
+    if manager.options.skip_cache_mtime_checks:
+        return True
+    try:
+        return manager.getmtime(meta.data_file) == meta.data_mtime
+    except OSError:
+        return False
+
+
 def compute_hash(text: str) -> str:
     # We use a crypto hash instead of the builtin hash(...) function
     # because the output of hash(...)  can differ between runs due to
@@ -2758,9 +2768,16 @@ class State:
 
         if manager.stats_enabled:
             t0 = time.time()
+        cached_meta = meta
         meta = validate_meta(meta, id, path, ignore_all, manager)
         if manager.stats_enabled:
             manager.add_stats(validate_meta_time=time.time() - t0)
+        if meta is None and cached_meta is not None:
+            if not data_file_is_current(cached_meta, manager):
+                # The data file is not the one the cached interface hash describes
+                # (e.g. a previous run was interrupted after writing it). Forget the
+                # hash, so that an unchanged interface hash cannot make us keep it.
+                interface_hash = b""
 
         if meta:
             assert meta_ex is not None
